@@ -1,6 +1,7 @@
 package vc
 
 import (
+	"strconv"
 	"fmt"
 	"go/types"
 	"math/big"
@@ -728,7 +729,15 @@ func (s *Scope) evalCall(e ECall) Term {
 		for _, a := range as {
 			sorts = append(sorts, a.Sort)
 		}
-		uf := fmt.Sprintf("uf_%s$0", sanitize(fpkg+"."+fname))
+		// name$k selects the k-th result (strconv.Atoi$1 = the error)
+		resIdx := 0
+		if k := strings.LastIndex(fname, "$"); k > 0 {
+			if n, err := strconv.Atoi(fname[k+1:]); err == nil {
+				resIdx = n
+				fname = fname[:k]
+			}
+		}
+		uf := fmt.Sprintf("uf_%s$%d", sanitize(fpkg+"."+fname), resIdx)
 		for _, so := range sorts {
 			uf += "_" + sanitize(string(so))
 		}
@@ -737,7 +746,9 @@ func (s *Scope) evalCall(e ECall) Term {
 			for _, imp := range cur.Imports {
 				if imp.Name == fpkg && imp.Types != nil {
 					if fo, ok := imp.Types.Scope().Lookup(fname).(*types.Func); ok {
-						rs = w.SortOf(fo.Type().(*types.Signature).Results().At(0).Type())
+						if sg := fo.Type().(*types.Signature); resIdx < sg.Results().Len() {
+							rs = w.SortOf(sg.Results().At(resIdx).Type())
+						}
 					}
 				}
 			}
